@@ -40,6 +40,7 @@ def units(tier, seed):
         {"sid": "list", "family": "lists", "size": 10 if q else 12, "donor": ("lists", 8)},
         {"sid": "attrs", "family": "attrs", "size": 3 if q else 4, "donor": ("attrs", 3)},
         {"sid": "topmarks", "family": "topmarks", "size": 3 if q else 4, "donor": ("topmarks", 3)},
+        {"sid": "basic", "family": "links", "size": 4 if q else 5, "donor": ("links", 3)},
     ]
     extra = [
         {"sid": "table", "family": "table", "size": 10 if q else 12, "donor": ("table", 10)},
@@ -194,6 +195,17 @@ def build_menu(c, sc, node, pool_sl, u):
             out.append(node.child_before(p)["node"])
             return out
         add({"op": "resolve+accessors", "pos": p}, q)
+
+        def across(p=p):
+            r = node.resolve(p)
+            out = []
+            for e in range(n + 1):
+                r2 = node.resolve(e)
+                out.append(r.marks_across(r2))
+                out.append(r.shared_depth(e))
+                out.append(r.block_range(r2))
+            return out
+        add({"op": "marks_across/block_range(all ends)", "pos": p}, across)
     for a, b in R:
         add({"op": "slice", "from": a, "to": b}, lambda a=a, b=b: node.slice(a, b))
         add({"op": "cut", "from": a, "to": b}, lambda a=a, b=b: [node.cut(a, b), node.content.cut(a, b)])
@@ -251,6 +263,18 @@ def build_menu(c, sc, node, pool_sl, u):
         t1 = c.node(tj[0]["content"][0])
         arr2 = [t1, t1.with_text(t1.text + "z") if hasattr(t1, "with_text") else t1, t1]
         add({"op": "Fragment.from_array(mergeable text)"}, lambda: [A.Fragment.from_array(arr2), arr2])
+    # arrays with two separate join runs built from SHARED text nodes (the second run starts with a caller's node)
+    if model.mark_names:
+        m0 = c.mark(gen_steps.schema_marks(model, 1)[0])
+        tp1, tp2 = schema.text("p"), schema.text("q")
+        tm1, tm2 = schema.text("r", [m0]), schema.text("s", [m0])
+        shared["text_nodes"] = [tp1, tp2, tm1, tm2]
+        for arr_names in (("p", "q", "r", "s"), ("r", "s", "p", "q"), ("p", "q", "r", "s", "p", "q")):
+            pick = {"p": tp1, "q": tp2, "r": tm1, "s": tm2}
+            arr3 = [pick[x] for x in arr_names]
+            shared.setdefault("arrays", []).append(arr3)
+            add({"op": "Fragment.from_array(two join runs, shared nodes)", "array": list(arr_names)},
+                lambda arr3=arr3: [A.Fragment.from_array(arr3), A.Fragment.from_(arr3)])
     # D. mark sets
     for mj, lm in live_marks:
         for ml in mark_lists:
